@@ -223,6 +223,16 @@ def check_writer(case, acc, d):
             w.write(frame(T.COLS, rows))
         else:
             data = payloads(rows, sizes, bt, case.get("single"))
+            if case.get("permuted") is not None:
+                # one append carries exactly the declared columns in reversed order: it is either refused (ValueError)
+                # or its values must land under their own column names
+                j = case["permuted"]
+                if bt == "DataFrame":
+                    data[j] = data[j][list(T.COLS)[::-1]]
+                elif isinstance(data[j], dict):
+                    data[j] = {k: data[j][k] for k in list(T.COLS)[::-1]}
+                else:
+                    data[j] = [{k: r[k] for k in list(T.COLS)[::-1]} for r in data[j]]
             if proto == "context":
                 with w as ww:
                     for p in data:
@@ -238,8 +248,13 @@ def check_writer(case, acc, d):
             md = pq.ParquetFile(path).metadata
             groups = [md.row_group(g).num_rows for g in range(md.num_row_groups)]
     except Exception as e:
+        if case.get("permuted") is not None and isinstance(e, ValueError):
+            acc.count("permuted_append_refused")
+            return "refused"
         acc.violation(Violation(sig + f"raises:{type(e).__name__}", f"{case}: {type(e).__name__}: {str(e)[:200]}", case))
         return "raise"
+    if case.get("permuted") is not None:
+        acc.count("permuted_append_accepted")
     got = T.frame_rows(back)
     if list(back.columns) != T.COLS:
         acc.violation(Violation(sig + "columns", f"{case}: columns read back differ", case, T.COLS, list(back.columns)))
@@ -263,11 +278,16 @@ def writer_worker(item):
         for single in (("dict", "list") if bt == "Dicts" and 1 in sizes else ((None, "perrow") if bt == "Records" else (None,))):
             for proto in ("explicit", "context"):
                 cases.append(dict(sizes=list(sizes), protocol=proto, single=single))
+    if bt in ("DataFrame", "Dicts"):
+        for sizes in sequences(n, bt, zeros):
+            nz = [i for i, k in enumerate(sizes) if k]
+            for j in sorted({nz[0], nz[-1]}) if nz else ():
+                cases.append(dict(sizes=list(sizes), protocol="explicit", single="list" if bt == "Dicts" else None, permuted=j))
     for c in cases:
         case = {"part": "writer", "fmt": fmt, "buffer_size": bs, "buffer_type": bt, **c}
         out = check_writer(case, acc, d)
         parts = sum(1 for k in c["sizes"] if k)
-        acc.case(key=("w", fmt, bs, bt, tuple(c["sizes"]), c["protocol"], c.get("single")),
+        acc.case(key=("w", fmt, bs, bt, tuple(c["sizes"]), c["protocol"], c.get("single"), c.get("permuted")),
                  nontrivial=n >= 2 and (parts >= 2 or bs > 1), outcome=("w", repr(out)),
                  sample=case if (n, len(c["sizes"])) in ((5, 3), (3, 4)) and bs == 2 else None)
     worker_scratch().clean(d)
